@@ -85,6 +85,7 @@ type Explorer struct {
 	FallbackQueries   int
 	MaxViolations     int
 	StoppedEarly      bool
+	lastProgress      time.Time
 
 	mu         sync.Mutex
 	frontier   [][]dec
@@ -122,6 +123,27 @@ func (ex *Explorer) Run() {
 	if ex.PathCap == 0 {
 		ex.PathCap = 200000
 	}
+	// watchdog: a worker blocked for good (native channel operation in the
+	// code under test, wedged solver) must not hang the check silently
+	ex.lastProgress = time.Now()
+	stopWatch := make(chan struct{})
+	defer close(stopWatch)
+	go func() {
+		for {
+			select {
+			case <-stopWatch:
+				return
+			case <-time.After(30 * time.Second):
+			}
+			ex.mu.Lock()
+			stalled := time.Since(ex.lastProgress) > 20*time.Minute
+			ex.mu.Unlock()
+			if stalled {
+				fmt.Fprintf(os.Stderr, "engine stalled for 20 minutes while exploring %s (a worker is blocked: native channel operation in the code under test, or a wedged solver); no verdict\n", ex.Harness)
+				os.Exit(2)
+			}
+		}
+	}()
 	var wg sync.WaitGroup
 	for w := 0; w < ex.Workers; w++ {
 		wg.Add(1)
@@ -275,6 +297,7 @@ func (ex *Explorer) runPath(solver *Solver, prefix []dec, ws *workerState) {
 	ex.mu.Lock()
 	defer ex.mu.Unlock()
 	st := &ex.Stats
+	ex.lastProgress = time.Now()
 	st.Paths++
 	st.Decisions += len(p.trace)
 	st.Obligations += p.obl
